@@ -78,7 +78,7 @@ type Obs struct {
 
 func isTokenOp(k string) bool {
 	switch k {
-	case "add", "get", "getall", "remove", "key", "import", "addin", "getallin", "use":
+	case "add", "get", "getall", "remove", "key", "import", "addin", "getallin", "use", "keynomat":
 		return true
 	}
 
@@ -642,6 +642,8 @@ func coqOp(o Op) string {
 		return fmt.Sprintf("WOp %d%%nat %d (KAddIn %d %d %d)", o.I, tok, o.C, o.V, o.Col)
 	case "getallin":
 		return fmt.Sprintf("WOp %d%%nat %d (KGetAllIn %d %d)", o.I, tok, o.CT, o.Col)
+	case "keynomat":
+		return fmt.Sprintf("WOp %d%%nat %d KAddKeyEmpty", o.I, tok)
 	case "use":
 		kn := o.KN
 		if kn < 0 {
@@ -1236,6 +1238,7 @@ func (b *builder) probesFull(r *hx.Rng) {
 			{Kind: "remove", C: 100*(4+r.Intn(2)) + 2 + r.Intn(2)},
 			{Kind: "key"},
 			{Kind: "import", KN: importBase + 1 + r.Intn(4)},
+			{Kind: "keynomat", KN: r.Intn(4)},
 		}
 
 		for _, m := range useMethods {
@@ -1302,7 +1305,7 @@ func buildFull(r *hx.Rng) []Op {
 	return b.ops
 }
 
-var allKinds = []string{"get", "add", "getall", "key", "remove"} //nolint:gochecknoglobals
+var allKinds = []string{"get", "add", "getall", "key", "remove", "keynomat"} //nolint:gochecknoglobals
 
 type job struct {
 	kind string
@@ -1547,7 +1550,7 @@ func main() {
 			for inst := range b.iuser {
 				for t := 0; t < b.ntok; t++ {
 					ops := []Op{{Kind: "get", C: 401}, {Kind: "getall", CT: 4}, {Kind: "add", C: 402, V: 0}, {Kind: "remove", C: 401},
-						{Kind: "key"}, {Kind: "import", KN: importBase + 3}, {Kind: "getallin", CT: 2, Col: 101},
+						{Kind: "key"}, {Kind: "import", KN: importBase + 3}, {Kind: "keynomat"}, {Kind: "getallin", CT: 2, Col: 101},
 						{Kind: "addin", C: 403, Col: 101}}
 					for _, m := range useMethods {
 						op := Op{Kind: "use", M: m, C: 201, KN: importBase + b.iuser[inst]}
